@@ -4,8 +4,10 @@ import common, fragcheck, fraggen
 
 VALUES = ['auto', 'avoid', 'avoid-page', 'avoid-column', 'page', 'column', 'left', 'right', 'recto', 'verso']
 BR = fraggen.BR
-PRE = ('From Coq Require Import QArith List String Bool.\nRequire Import WV.base.Py WV.model.Frag2 WV.model.C04Spec.\n'
+PRE = ('From Coq Require Import QArith List String Bool.\nRequire Import WV.model.Frag2 WV.model.C04Spec.\n'
        'Import ListNotations.\n')
+PRE_T = ('From Coq Require Import QArith List String Bool.\nRequire Import WV.base.Py WV.model.Frag2 WV.model.C04Spec WV.model.C04SpecT.\n'
+         'Import ListNotations.\n')
 RANK = {'auto': 0, 'avoid': 1, 'avoid-page': 1, 'avoid-column': 1, 'column': 2, 'page': 3,
         'left': 4, 'right': 4, 'recto': 4, 'verso': 4}
 
@@ -115,6 +117,7 @@ def check(run):
     rng = random.Random(run.seed * 7919 + 4)
     thorough = run.tier == 'thorough'
     common.prove(run, 'C04', ['model/C04Spec.vo', 'model/FragSpec.vo'])
+    common.coq_make(['model/C04SpecT.vo'])
     run.trusted += ['Coq 8.16.1 kernel; vm_compute for cases.v',
                     'translator py2coq + interpreter Py.v for the break fold / force / avoid predicates (validated by stream fold-direct)',
                     'hand model Frag2.v for the traversal (find_earlier, _break_line, page sides), tied by frag2-render']
@@ -144,7 +147,6 @@ def check(run):
     try:
         masks = common.eval_cases('c04fold', PRE, 'list brk * brk', coq, 'fold_judge', per_file=800)
         run.oblige('corr:fold-direct(Frag2.fold_breaks = implementation)', not any(m & 1 for m in masks))
-        run.oblige('corr:fold-direct(interpreter(py2coq(source)) = implementation)', not any(m & 4 for m in masks))
         for (b, a), m in zip(cases, masks):
             if m & 2:
                 run.fail('break value resolution: the strongest value does not win', {'stream': 'fold-direct', 'case': [b, a]})
@@ -155,6 +157,11 @@ def check(run):
                              'split at a random point into the before / after chains of nested stub boxes')
     except RuntimeError as exc:
         run.oblige('corr:fold-direct', False, str(exc))
+    try:
+        masks_t = common.eval_cases('c04foldT', PRE_T, 'list brk * brk', coq, 'foldT_judge', per_file=800)
+        run.oblige('corr:fold-direct(interpreter(py2coq(source)) = implementation)', not any(masks_t))
+    except RuntimeError as exc:
+        run.oblige('corr:fold-direct(interpreter(py2coq(source)) = implementation)', False, str(exc))
     pc = [(v, c) for v in VALUES for c in (False, True)]
     outs = common.run_impl('impl_c04', 'preds', pc)
     coq = ['(%s, %s, %s, %s)' % (BR[v], str(c).lower(), str(o[0]).lower(), str(o[1]).lower())
@@ -192,10 +199,82 @@ def check(run):
                              'was empty')
     except RuntimeError as exc:
         run.oblige('corr:frag2-render', False, str(exc))
+    # ---- stream 3: forced breaks between table rows (same fold, different traversal: monitor only)
+    table_stream(run, rng, 1500 if thorough else 300)
+
+
+def table_doc(rng):
+    """a table whose rows carry break-before/after values; returns (html, rows=[(words, ba, bf)], H)"""
+    n = [0]
+    def w():
+        n[0] += 1
+        return fraggen.word(n[0])
+    H = rng.choice([40, 60, 100])
+    rows = []
+    parts = []
+    head = ''
+    if rng.random() < 0.4:
+        hw = w()
+        head = '<thead><tr><td>%s</td></tr></thead>' % hw
+    for _ in range(rng.choice([2, 3, 5, 8])):
+        bf = rng.choice(['auto'] * 5 + ['page', 'left', 'right', 'recto', 'verso', 'avoid'])
+        ba = rng.choice(['auto'] * 6 + ['page', 'left', 'right', 'avoid'])
+        ws = [w() for _ in range(rng.choice([1, 1, 2]))]
+        rows.append((ws, ba, bf))
+        parts.append('<tr style="break-before:%s;break-after:%s"><td>%s</td></tr>' % (bf, ba, '<br>'.join(ws)))
+    html = ('<style>@page{size:100px %dpx;margin:0}html{font-family:weasyprint;font-size:10px;line-height:10px}body{margin:0}'
+            'td{padding:0}table{border-spacing:0}</style><p>%s</p><table>%s<tbody>%s</tbody></table>' % (H, w(), head, ''.join(parts)))
+    return html, rows, H
+
+
+def judge_table(rows, pages):
+    page_of = {}
+    for pi, ws in enumerate(pages):
+        for x in ws:
+            page_of.setdefault(x, pi)
+    bad = []
+    for (wa, ba, _), (wb, _, bf) in zip(rows, rows[1:]):
+        vals = [ba, bf]
+        top = max(RANK[v] for v in vals)
+        if top < 3 or wa[-1] not in page_of or wb[0] not in page_of:
+            continue
+        pa, pb = page_of[wa[-1]], page_of[wb[0]]
+        if pb <= pa:
+            bad.append(('forced-break-starts-new-page[table-row]', (vals, wa[-1], wb[0], pa, pb)))
+        elif top == 4:
+            side = [v for v in vals if RANK[v] == 4][-1]
+            want_right = {'right': True, 'left': False, 'recto': True, 'verso': False}[side]
+            if (pb % 2 == 0) != want_right:
+                bad.append(('forced-side[table-row]', (vals, wb[0], pb)))
+    return bad
+
+
+def table_stream(run, rng, n):
+    docs = [table_doc(rng) for _ in range(n)]
+    outs = common.run_impl('impl_wide', 'render_words', [{'html': h} for h, _, _ in docs], limit=60)
+    nforced = 0
+    for (html, rows, H), (st, o) in zip(docs, outs):
+        if st != 'ok':
+            run.fail('render failed: %s' % (o if st != 'exc' else o['type']), {'stream': 'table-breaks', 'html': html},
+                     signature='timeout' if st == 'timeout' else 'crash:%s' % (o.get('site'),))
+            continue
+        nforced += sum(1 for (_, ba, _), (_, _, bf) in zip(rows, rows[1:]) if max(RANK[ba], RANK[bf]) >= 3)
+        for clause, detail in judge_table(rows, o['pages'])[:1]:
+            run.fail('break control not honoured: %s %s' % (clause, detail),
+                     {'stream': 'table-breaks', 'html': html, 'clause': clause, 'rows': rows}, signature='break:%s' % clause)
+    run.count('table-breaks', len(docs), [(H, len(rows)) for _, rows, H in docs], samples=[docs[0][0][-300:]])
+    run.stream_info('table-breaks', forced_boundaries=nforced,
+                    rule='tables whose rows carry break-before/after values; forced value between two rows => next page, '
+                         'requested side')
 
 
 def replay(data):
     d = data.get('data', {})
+    if d.get('stream') == 'table-breaks':
+        (st, o), = common.run_impl('impl_wide', 'render_words', [{'html': d['html']}])
+        bad = judge_table([tuple(r) for r in d['rows']], o['pages']) if st == 'ok' else [(st,)]
+        print(bad)
+        return 1 if bad else 0
     if d.get('stream') == 'fold-direct':
         (st, o), = common.run_impl('impl_c04', 'fold', [tuple(d['case'])])
         print('implementation answers', o)
